@@ -787,11 +787,12 @@ class HttpRequestParser(HttpParser[RawRequestMessage]):
         yarl raises ValueError for a malformed authority, for the host
         immediately and for the port only when it is first looked at; both must
         end as a 400, not as a ValueError in whichever code touches them first.
+        (Userinfo in front of an empty host, 'http://[::1]@/', is an IndexError.)
         """
         try:
             url = build()
             url.host, url.port  # validated lazily by yarl
-        except ValueError:
+        except (ValueError, IndexError):
             raise InvalidURLError(
                 path.encode(errors="surrogateescape").decode("latin1")
             ) from None
